@@ -63,6 +63,9 @@ KINDS_S3 = {
     "interrupt_before": ("before", lambda: KeyboardInterrupt(), False),
     "interrupt_after": ("after", lambda: KeyboardInterrupt(), False),
     # a transport-level failure: a botocore error that is NOT a ClientError (and not an OSError)
+    # a conditional PUT that WAS applied, whose response got lost, and whose automatic retry by the SDK is answered
+    # 412 (planted on the pointer write only): the library sees a precondition failure although its write is in place
+    "applied_then_precondition_failed": ("after", lambda: _cerr("PreconditionFailed", 412), False),
     "transport_once": ("before", lambda: _transport_error(), False),
     "applied_then_transport_error_once": ("after", lambda: _transport_error(), False),
 }
@@ -381,6 +384,8 @@ def run_group(payload: Dict[str, Any]) -> Dict[str, Any]:
         plans: List[Tuple[str, List[Tuple[int, str, Any, bool]], str]] = []
         for i, call in enumerate(calls):
             for kname, (when, fac, pers) in kinds.items():
+                if kname == "applied_then_precondition_failed" and not (call[0].startswith("PUT[") and _is_pointer_write(call)):
+                    continue
                 if when == "after" and backend != "local" and not call[0].startswith(("PUT", "DELETE")) \
                         and not kname.startswith("interrupt"):
                     continue  # "applied then error" only makes sense for mutating requests
@@ -532,6 +537,10 @@ def run_create(payload: Dict[str, Any]) -> Dict[str, Any]:
         kinds = KINDS_LOCAL if backend == "local" else KINDS_S3
         if tier == "quick":
             kinds = {k: v for k, v in kinds.items() if k != "sysexit_after"}
+        if backend != "local":
+            # a conditional PUT that WAS applied, whose response got lost, and whose automatic retry by the SDK is
+            # answered 412: the library sees a precondition failure although its own write is in place
+            kinds = dict(kinds, applied_then_precondition_failed=("after", lambda: _cerr("PreconditionFailed", 412), False))
         restore()
         rec = Injector()
         attach(rec)
@@ -543,6 +552,8 @@ def run_create(payload: Dict[str, Any]) -> Dict[str, Any]:
         rep.add("storage_calls_numbered", len(calls))
         for i, call in enumerate(calls):
             for kname, (when, fac, pers) in kinds.items():
+                if kname == "applied_then_precondition_failed" and not call[0].startswith("PUT["):
+                    continue
                 if when == "after" and backend != "local" and not call[0].startswith(("PUT", "DELETE")) \
                         and not kname.startswith("interrupt"):
                     continue
